@@ -58,6 +58,7 @@ type Directives struct {
 	GhostVars   map[string]string // name -> type text
 	GhostFields map[string]string // "pkgpath.Type.field" -> type text
 	Defines     map[string]*Define
+	Pending     map[string]bool // "pkgpath.Type.field": callbacks stored here are invoked exactly once later
 }
 
 // Define is a specification macro: define name(p T, ...) R = expr
@@ -75,7 +76,7 @@ var clauseKeywords = map[string]bool{
 	"requires": true, "ensures": true, "assigns": true, "loop": true, "callback": true,
 	"resolves": true, "trusted": true, "inline": true, "holds": true, "assert": true,
 	"decreases": true, "hint": true, "modular": true, "spawns": true, "noframe": true,
-	"safety": true, "trigger": true,
+	"safety": true, "trigger": true, "assumes": true,
 }
 
 var tagRe = regexp.MustCompile(`^\[([A-Z0-9, ]+)\]`)
@@ -129,13 +130,24 @@ func parseContractLines(lines []string, where []string, pkgPath string, file *as
 				rest := strings.TrimSpace(trim[len(head):])
 				if head == "lib" {
 					// lib NAME(p1, p2) (r1, r2)
-					m := regexp.MustCompile(`^(\S+?)\(([^)]*)\)\s*(.*)$`).FindStringSubmatch(rest)
-					if m == nil {
+					// NAME may contain "(*T)"; the parameter list is the first "(" not followed by "*"
+					op := -1
+					for k := 0; k+1 < len(rest); k++ {
+						if rest[k] == '(' && rest[k+1] != '*' {
+							op = k
+							break
+						}
+					}
+					cp := -1
+					if op >= 0 {
+						cp = op + strings.Index(rest[op:], ")")
+					}
+					if op < 0 || cp < op {
 						return nil, fmt.Errorf("%s: bad lib header %q", where[i], trim)
 					}
-					cur.Name = m[1]
-					cur.Params = splitNames(m[2])
-					cur.Results = splitNames(strings.Trim(m[3], "() "))
+					cur.Name = rest[:op]
+					cur.Params = splitNames(rest[op+1 : cp])
+					cur.Results = splitNames(strings.Trim(rest[cp+1:], "() "))
 					cur.Trusted = true
 				} else {
 					cur.Name = rest
@@ -175,6 +187,11 @@ func parseContractLines(lines []string, where []string, pkgPath string, file *as
 					return nil, fmt.Errorf("%s: bad devirtualize %q", where[i], trim)
 				}
 				dirs.Devirt[qualify(pkgPath, strings.TrimSpace(parts[0]))] = qualify(pkgPath, strings.TrimLeft(strings.TrimSpace(parts[1]), "*"))
+			case "pending":
+				cur = nil
+				for _, f := range splitNames(strings.TrimSpace(trim[len(head):])) {
+					dirs.Pending[qualify(pkgPath, f)] = true
+				}
 			case "drop":
 				cur = nil
 				for _, f := range splitNames(strings.TrimSpace(trim[len(head):])) {
@@ -279,6 +296,14 @@ func parseContractLines(lines []string, where []string, pkgPath string, file *as
 			cl.Param = f[0]
 			cl.Arg = f[1]
 			rest = ""
+		case "assert":
+			cl.Kind = "assert"
+			i2 := strings.Index(rest, ": ")
+			if i2 < 0 {
+				return nil, fmt.Errorf("%s: bad assert clause %q (want: assert[Cxx] callee#k: expr)", where[i], trim)
+			}
+			cl.Param = strings.TrimSpace(rest[:i2])
+			rest = strings.TrimSpace(rest[i2+2:])
 		default:
 			cl.Kind = kw
 		}
@@ -336,6 +361,9 @@ func parseDefine(text string) (*Define, error) {
 	d := &Define{Name: strings.TrimSpace(head[:op])}
 	for _, prm := range splitTop(head[op+1 : cp]) {
 		f := strings.Fields(prm)
+		if len(f) == 0 {
+			continue
+		}
 		if len(f) != 2 {
 			return nil, fmt.Errorf("bad define parameter %q", prm)
 		}
